@@ -18,7 +18,7 @@ VARIABLE H      \* [M : abstract manager, cur : root -> content of the manager's
                 \*  pops : undo/redo calls that changed the document, v / d : C12 violations / drift found by conjoined parts]
 xvars == <<vars, H>>
 
-EmptyView == [t |-> "\"\"", a |-> "[]", m |-> "{}"]
+EmptyView == [t |-> "\"\"", a |-> "[]", m |-> "{}", x |-> "X[]"]
 H0(keep) == [M |-> EmptyMgr, cur |-> EmptyView, trk |-> {}, pops |-> 0, v |-> keep.v, d |-> keep.d]
 
 OriginOf(call) == IF "o" \in DOMAIN call THEN call.o ELSE ""
@@ -51,7 +51,9 @@ HLocal ==
       curV == ViewOf(H.cur, scope)
       aftV == ViewOf(Ev.uv, scope)
       tracked == atMgr /\ OriginOf(Ev.call) = uc.origin
-      captured == ok /\ tracked /\ changed /\ InScope(Ev.croot, scope, Ev.cont)
+      \* a multi-operation transaction (call.a = "multi") has no single container: captured iff a tracked type changed
+      inScope == IF Ev.call.a = "multi" THEN ScopeChanged(R, R2, Ev.croot, scope) ELSE InScope(Ev.croot, scope, Ev.cont)
+      captured == ok /\ tracked /\ changed /\ inScope
       foreign == ok /\ atMgr /\ ~tracked /\ ScopeChanged(R, R2, Ev.croot, scope)
       extend == Ev.us = Len(M.ust)
       M1 == IF captured THEN Capture(M, curV, extend, Ev.uclk)
